@@ -41,6 +41,10 @@ def build_ext(pkg, sanitize=False):
            "-I" + os.path.join(pkg, "sim", "src")]
     if sanitize:
         cmd += ["-fsanitize=address,undefined", "-fno-omit-frame-pointer"]
+    else:
+        # the plain build is the extension as `setup.py build_ext` produces it: CPython's CFLAGS carry -DNDEBUG (without it
+        # a failed assert() of CPython's inline accessors aborts the in-process check instead of letting it report)
+        cmd += ["-DNDEBUG"]
     cmd += _c_sources(pkg) + ["-o", out, "-lm"]
     r = subprocess.run(cmd, capture_output=True, text=True)
     if r.returncode != 0:
